@@ -481,6 +481,7 @@ def run(ctx: lib.Ctx) -> None:
     probe_bad = []
     for b in range(256):
         ok, val = run_unforge(bytes([3, b]))
+        ctx.case(('primtag-probe', b), nontrivial=False, kind='primtag-probe:' + ('accepted' if ok else 'rejected'))
         if ok != (b <= PROTO_MAX):
             probe_bad.append(b)
             if ok:
@@ -540,18 +541,18 @@ def run(ctx: lib.Ctx) -> None:
             raw.append(('corpus', bytes.fromhex(doc['bytes'])))
 
     # ---- structured stream
-    n_small, n_mid, n_big = ctx.n(500, 9000), ctx.n(70, 2500), ctx.n(8, 300)
+    n_small, n_mid, n_big = ctx.n(500, 5000), ctx.n(70, 1200), ctx.n(8, 150)
     for _ in range(n_small):
         trees.append(('small', gen_tree(rng, names, rng.choice([1, 2, 3, 4, 6, 9, 12]), big_ok=rng.random() < 0.1)[0]))
     for _ in range(n_mid):
         trees.append(('mid', gen_tree(rng, names, rng.choice([15, 20, 30, 45]), big_ok=False)[0]))
     for _ in range(n_big):
         trees.append(('big', gen_tree(rng, names, rng.choice([80, 120, 200, 200]), big_ok=rng.random() < 0.3)[0]))
-    for _ in range(ctx.n(6, 120)):
+    for _ in range(ctx.n(6, 60)):
         trees.append(('chain', chain(rng, names, rng.choice([10, 40, 90, 150]))))
     for _ in range(ctx.n(6, 80)):
         trees.append(('bigint', {'int': str(rng.choice([-1, 1]) * rng.getrandbits(rng.choice([2048, 4095, 4096])))}))
-    for _ in range(ctx.n(80, 1500)):   # ill-formed trees: correspondence only
+    for _ in range(ctx.n(80, 800)):   # ill-formed trees: correspondence only
         trees.append(('illformed', gen_tree(rng, names + helper[:3], rng.choice([1, 2, 4, 8, 15]), wf=False, big_ok=False)[0]))
 
     enc_cases, enc_meta = [], []
@@ -598,10 +599,10 @@ def run(ctx: lib.Ctx) -> None:
     other = [b for b in valid_encodings if 40 < len(b) <= 1500]
     rng.shuffle(small)
     rng.shuffle(other)
-    for b in small[:ctx.n(40, 600)]:
+    for b in small[:ctx.n(40, 350)]:
         _, info = ref_decode(b, names_by_tag)
         raw += mutants(rng, b, info, per=ctx.n(8, 20), all_trunc=True)
-    for b in other[:ctx.n(25, 400)]:
+    for b in other[:ctx.n(25, 250)]:
         try:
             _, info = ref_decode(b, names_by_tag)
         except (Bad, NonUtf8):
